@@ -16,6 +16,7 @@ from gwf.scheduling import get_status_map, submit_workflow
 logging.disable(logging.CRITICAL)
 
 META = {
+    "solver_reasoned": 'none beyond booleans: stale bit per target (bool) and selectors (backend state per target, dependency subsets); CrossHair enumerates the feasible combinations exhaustively per DAG shape.',
     "real": ["gwf.scheduling.schedule", "gwf.scheduling.submit_workflow", "gwf.scheduling.submit_backend", "gwf.scheduling.should_run",
              "gwf.scheduling.get_status_map", "gwf.filtering.filter_names/NameFilter", "gwf.core.Graph.from_targets", "gwf.core.Graph.endpoints",
              "gwf.backends.base.TrackingBackend.submit/status"],
